@@ -1,8 +1,16 @@
 //! C19 — saving a problem to JSON and loading it back reproduces the same problem.
 //!
-//! Modelled channels (`ClarabelModel/Json.lean`):
+//! Modelled channels (`ClarabelModel/Json.lean`, `JsonLoad.lean`, `JsonCones.lean`):
 //!   `json.save`      the numbers `save_to_file` writes for a given internal state
 //!   `json.sanitize`  `sanitize_settings` / `desanitize_settings`
+//!   `json.load`      `load_from_file` after the parse: a parsed record (well-formed or with
+//!                    one / several defects, huge declared sizes in a child process) written
+//!                    with an independent JSON writer; verdict (ok + loaded data and settings /
+//!                    which error class / panic) against `JsonLoad.loadRecord` + `buildFromInput`
+//!   `json.conedec`   serde's `Deserialize` of a cone list (texts written by the derive, the
+//!                    cone arrays of real saved files, corrupted texts) against
+//!                    `JsonCones.decodeCones` on the token level
+//!   `json.coneenc`   serde's `Serialize` of a cone list against `JsonCones.encodeCones`
 //! Implementation-only oracles:
 //!   `json.roundtrip` save → independent parse → compare with the user's data; load →
 //!                    compare data / settings / solve; settings override
@@ -18,6 +26,9 @@ use std::panic::{catch_unwind, AssertUnwindSafe};
 use std::sync::atomic::{AtomicU64, Ordering};
 use vharness::proto::{ff, parse_f};
 use vharness::*;
+
+#[path = "common_cones.rs"]
+mod common_cones;
 
 type Cone = SupportedConeT<f64>;
 
@@ -412,6 +423,91 @@ fn oracle_save(r: &Req, out: &str) -> Result<(), String> {
         if !same_vals(&o.fs(k), &r.fs(uk), exact) {
             return Err(format!("saved {} differs from the user's data (exact={})", k, exact));
         }
+    }
+    Ok(())
+}
+
+// ---------------------------------------------------------------- channel json.saverec
+
+/// a cone of the file, read by hand from serde's externally tagged form
+fn cone_of_value(v: &Value) -> Option<Cone> {
+    let o = v.as_object()?;
+    if o.len() != 1 {
+        return None;
+    }
+    let (k, p) = o.iter().next()?;
+    Some(match k.as_str() {
+        "ZeroConeT" => Cone::ZeroConeT(p.as_u64()? as usize),
+        "NonnegativeConeT" => Cone::NonnegativeConeT(p.as_u64()? as usize),
+        "SecondOrderConeT" => Cone::SecondOrderConeT(p.as_u64()? as usize),
+        "ExponentialConeT" => { if !p.as_array()?.is_empty() { return None; } Cone::ExponentialConeT() }
+        "PowerConeT" => Cone::PowerConeT(p.as_f64()?),
+        "GenPowerConeT" => {
+            let a = p.as_array()?;
+            if a.len() != 2 { return None; }
+            Cone::GenPowerConeT(floats_of(&a[0])?, a[1].as_u64()? as usize)
+        }
+        "PSDTriangleConeT" => Cone::PSDTriangleConeT(p.as_u64()? as usize),
+        _ => return None,
+    })
+}
+
+/// the whole record `save_to_file` writes for a given solver state (internal data, scaling,
+/// cone list, settings), read back from the file with an independent reader
+fn run_saverec(r: &Req) -> String {
+    let mut s = solver_with_state(r);
+    s.data.cones = common_cones::parse_cones(r.str("cones"));
+    s.settings.time_limit = r.f("tl");
+    s.settings.direct_solve_method = r.str("dsm").to_string();
+    s.settings.chordal_decomposition_merge_method = r.str("mm").to_string();
+    s.settings.presolve_enable = r.b("pre");
+    s.settings.chordal_decomposition_enable = r.b("chord");
+    let text = match save_text(&s) {
+        Ok(t) => t,
+        Err(e) => return format!("err:{}", e.replace(' ', "_")),
+    };
+    let v: Value = match serde_json::from_str(&text) {
+        Ok(v) => v,
+        Err(_) => return "err:unparsable-output".into(),
+    };
+    let fl = |v: &Value| -> String {
+        match v.as_array() {
+            None => "bad".into(),
+            Some(a) => a.iter().map(|x| x.as_f64().map(ff).unwrap_or_else(|| "null".into())).collect::<Vec<_>>().join(","),
+        }
+    };
+    let us = |v: &Value| -> String { usizes_of(v).map(|x| vharness::proto::fus(&x)).unwrap_or_else(|| "bad".into()) };
+    let cones: Option<Vec<Cone>> = v["cones"].as_array().and_then(|a| a.iter().map(cone_of_value).collect());
+    let st = &v["settings"];
+    format!(
+        "Pm={} Pn={} Pcolptr={} Prowval={} P={} q={} Am={} An={} Acolptr={} Arowval={} A={} b={} cones={} tl={} dsm={} mm={} pre={} chord={}",
+        v["P"]["m"], v["P"]["n"], us(&v["P"]["colptr"]), us(&v["P"]["rowval"]), fl(&v["P"]["nzval"]), fl(&v["q"]),
+        v["A"]["m"], v["A"]["n"], us(&v["A"]["colptr"]), us(&v["A"]["rowval"]), fl(&v["A"]["nzval"]), fl(&v["b"]),
+        cones.map(|c| common_cones::fmt_cones(&c)).unwrap_or_else(|| "bad".into()),
+        st["time_limit"].as_f64().map(ff).unwrap_or_else(|| "null".into()),
+        st["direct_solve_method"].as_str().unwrap_or("bad"),
+        st["chordal_decomposition_merge_method"].as_str().unwrap_or("bad"),
+        st["presolve_enable"].as_bool().map(|b| b as u8).unwrap_or(9),
+        st["chordal_decomposition_enable"].as_bool().map(|b| b as u8).unwrap_or(9),
+    )
+}
+fn oracle_saverec(r: &Req, out: &str) -> Result<(), String> {
+    if out.starts_with("panic") || out.starts_with("err") {
+        return Err(format!("save_to_file failed on a well-formed state: {}", out));
+    }
+    let o = Req::parse(&format!("x {}", out)).ok_or("unparsable response")?;
+    // the cone list and the patterns are the solver's, verbatim
+    if o.str("cones") != r.str("cones") {
+        return Err(format!("saved cones {} differ from the solver's {}", o.str("cones"), r.str("cones")));
+    }
+    let (P, A) = (r.csc("P"), r.csc("A"));
+    if o.us("Pcolptr") != P.colptr || o.us("Prowval") != P.rowval || o.us("Acolptr") != A.colptr || o.us("Arowval") != A.rowval || o.u("Pm") != P.m || o.u("Pn") != P.n || o.u("Am") != A.m || o.u("An") != A.n {
+        return Err("saved patterns differ from the solver's".into());
+    }
+    // a finite or +inf time limit is written as a finite number
+    let tl = r.f("tl");
+    if (tl.is_finite() || tl == f64::INFINITY) && o.str("tl") == "null" {
+        return Err("time_limit was written as null".into());
     }
     Ok(())
 }
@@ -877,16 +973,361 @@ fn oracle_fault(r: &Req, out: &str) -> Result<(), String> {
     Ok(())
 }
 
+// ---------------------------------------------------------------- channel json.load
+//
+// A *parsed record* (what serde hands to the post-parse logic of `load_from_file`) travels on
+// the request line; `run` writes it as JSON text with the writer below (independent of the
+// crate's derive) and calls the real `load_from_file`; the model (`JsonLoad.loadRecord`)
+// computes the verdict from the record itself.
+
+/// JSON number text of a finite f64: Rust's shortest round-trip form
+fn jf(x: f64) -> String {
+    assert!(x.is_finite(), "json.load: only finite numbers can be written");
+    format!("{:?}", x)
+}
+fn jfs(v: &[f64]) -> String {
+    format!("[{}]", v.iter().map(|x| jf(*x)).collect::<Vec<_>>().join(","))
+}
+fn jus(v: &[usize]) -> String {
+    format!("[{}]", v.iter().map(|x| x.to_string()).collect::<Vec<_>>().join(","))
+}
+fn jcsc(m: &CscMatrix<f64>) -> String {
+    format!("{{\"m\":{},\"n\":{},\"colptr\":{},\"rowval\":{},\"nzval\":{}}}", m.m, m.n, jus(&m.colptr), jus(&m.rowval), jfs(&m.nzval))
+}
+/// serde's externally tagged representation of `SupportedConeT`, written by hand
+fn jcone(c: &Cone) -> String {
+    match c {
+        Cone::ZeroConeT(k) => format!("{{\"ZeroConeT\":{}}}", k),
+        Cone::NonnegativeConeT(k) => format!("{{\"NonnegativeConeT\":{}}}", k),
+        Cone::SecondOrderConeT(k) => format!("{{\"SecondOrderConeT\":{}}}", k),
+        Cone::ExponentialConeT() => "{\"ExponentialConeT\":[]}".to_string(),
+        Cone::PowerConeT(a) => format!("{{\"PowerConeT\":{}}}", jf(*a)),
+        Cone::GenPowerConeT(a, d) => format!("{{\"GenPowerConeT\":[{},{}]}}", jfs(a), d),
+        Cone::PSDTriangleConeT(k) => format!("{{\"PSDTriangleConeT\":{}}}", k),
+    }
+}
+
+/// the settings fields a record carries (all other fields keep their defaults)
+#[derive(Clone, Debug)]
+struct RecSettings {
+    dsm: String,
+    mm: String,
+    tl: f64,
+    pre: bool,
+    chord: bool,
+}
+fn rec_settings(r: &Req, p: &str) -> RecSettings {
+    RecSettings {
+        dsm: r.str(&format!("{}dsm", p)).to_string(),
+        mm: r.str(&format!("{}mm", p)).to_string(),
+        tl: r.f(&format!("{}tl", p)),
+        pre: r.b(&format!("{}pre", p)),
+        chord: r.b(&format!("{}chord", p)),
+    }
+}
+/// the `"settings":{…}` object of the file; `time_limit = +∞` cannot be written and is
+/// represented by leaving the key out (the default is +∞)
+fn jsettings(s: &RecSettings) -> String {
+    let mut f = vec![
+        "\"verbose\":false".to_string(),
+        "\"equilibrate_enable\":false".to_string(),
+        format!("\"direct_solve_method\":{}", Value::String(s.dsm.clone())),
+        format!("\"chordal_decomposition_merge_method\":{}", Value::String(s.mm.clone())),
+        format!("\"presolve_enable\":{}", s.pre),
+        format!("\"chordal_decomposition_enable\":{}", s.chord),
+    ];
+    if s.tl != f64::INFINITY {
+        f.push(format!("\"time_limit\":{}", jf(s.tl)));
+    }
+    format!("{{{}}}", f.join(","))
+}
+fn settings_from(s: &RecSettings) -> DefaultSettings<f64> {
+    let mut st = DefaultSettings::<f64>::default();
+    st.verbose = false;
+    st.equilibrate_enable = false;
+    st.direct_solve_method = s.dsm.clone();
+    st.chordal_decomposition_merge_method = s.mm.clone();
+    st.presolve_enable = s.pre;
+    st.chordal_decomposition_enable = s.chord;
+    st.time_limit = s.tl;
+    st
+}
+
+fn record_text(r: &Req) -> String {
+    let cones = common_cones::parse_cones(r.str("cones"));
+    let mut parts = vec![
+        format!("\"P\":{}", jcsc(&r.csc("P"))),
+        format!("\"q\":{}", jfs(&r.fs("q"))),
+        format!("\"A\":{}", jcsc(&r.csc("A"))),
+        format!("\"b\":{}", jfs(&r.fs("b"))),
+        format!("\"cones\":[{}]", cones.iter().map(jcone).collect::<Vec<_>>().join(",")),
+    ];
+    // `#[serde(default)] settings`: a record without the key gets the default settings
+    if r.b("hasset") {
+        parts.push(format!("\"settings\":{}", jsettings(&rec_settings(r, ""))));
+    }
+    format!("{{{}}}", parts.join(","))
+}
+
+/// largest natural number mentioned by the record (dimensions, indices, cone sizes)
+fn record_max_nat(r: &Req) -> u128 {
+    let mut mx: u128 = 0;
+    for k in ["Pm", "Pn", "Pcolptr", "Prowval", "Am", "An", "Acolptr", "Arowval"] {
+        for x in r.us(k) {
+            mx = mx.max(x as u128);
+        }
+    }
+    for c in common_cones::parse_cones(r.str("cones")) {
+        mx = mx.max(match c {
+            Cone::ZeroConeT(k) | Cone::NonnegativeConeT(k) | Cone::SecondOrderConeT(k) | Cone::PSDTriangleConeT(k) => k as u128,
+            Cone::GenPowerConeT(_, d) => d as u128,
+            _ => 3,
+        });
+    }
+    mx
+}
+
+fn classify_load_error(e: &std::io::Error) -> String {
+    let m = e.to_string();
+    let fmt = |rest: &str| -> &'static str {
+        if rest.contains("incompatible") { "IncompatibleDimension" }
+        else if rest.contains("column pointer") { "BadColptr" }
+        else if rest.contains("Row value") { "BadRowval" }
+        else if rest.contains("not sorted") { "BadRowOrdering" }
+        else { "other" }
+    };
+    if let Some(rest) = m.strip_prefix("invalid matrix P: ") { format!("err:P:{}", fmt(rest)) }
+    else if let Some(rest) = m.strip_prefix("invalid matrix A: ") { format!("err:A:{}", fmt(rest)) }
+    else if m == "invalid matrix column pointers" { "err:colptr".into() }
+    else if m.starts_with("Invalid direct_solve_method") { "err:settings:direct_solve_method".into() }
+    else if m.starts_with("Invalid chordal_decomposition_merge_method") { "err:settings:chordal_decomposition_merge_method".into() }
+    else if m == "invalid GenPowerConeT exponents" { "err:genpow".into() }
+    else if m == "inconsistent problem dimensions" { "err:dimensions".into() }
+    else { format!("err:parse:{}", m.chars().map(|c| if c.is_whitespace() || c == '=' || c == ',' { '_' } else { c }).take(60).collect::<String>()) }
+}
+
+fn run_load(r: &Req) -> String {
+    // records that declare huge sizes may make the constructor allocate without bound:
+    // those run in a child process (an allocation failure aborts, it cannot be caught)
+    if record_max_nat(r) >= (1u128 << 24) && !std::env::args().any(|a| a == "--one") {
+        let mut line = r.chan.clone();
+        for (k, v) in &r.kv {
+            line.push_str(&format!(" {}={}", k, v));
+        }
+        let out = run_isolated(&line, 20.0, 4096);
+        return if out.starts_with("abort") || out.starts_with("hang") { format!("panic:{}", out.replace(':', "_")) } else { out };
+    }
+    let text = record_text(r);
+    if std::env::var("C19_DEBUG").is_ok() {
+        eprintln!("json.load file: {}", text.chars().take(3000).collect::<String>());
+    }
+    let arg = if r.b("arg") { Some(settings_from(&rec_settings(r, "a"))) } else { None };
+    let res = catch_unwind(AssertUnwindSafe(|| load_text(text.as_bytes(), arg)));
+    match res {
+        Ok(Err(e)) => classify_load_error(&e),
+        Ok(Ok(s)) => {
+            let st = &s.settings;
+            let head = Line::out()
+                .s("ok", "1")
+                .u("n", s.data.n)
+                .u("m", s.data.m)
+                .f("tl", st.time_limit)
+                .s("dsm", &st.direct_solve_method)
+                .s("mm", &st.chordal_decomposition_merge_method)
+                .b("pre", st.presolve_enable)
+                .b("chord", st.chordal_decomposition_enable)
+                .s("cones", &common_cones::fmt_cones(&s.data.cones));
+            // the internal data is compared when the solver was built without equilibration
+            // (records with a settings object / a settings argument)
+            if r.b("hasset") || r.b("arg") {
+                head.csc("P", &s.data.P).fs("q", &s.data.q).csc("A", &s.data.A).fs("b", &s.data.b).done()
+            } else {
+                head.done()
+            }
+        }
+        Err(e) => {
+            let msg = if let Some(s) = e.downcast_ref::<&str>() { s.to_string() } else if let Some(s) = e.downcast_ref::<String>() { s.clone() } else { "?".into() };
+            format!("panic:{}", msg.chars().map(|c| if c.is_whitespace() || c == '=' || c == ',' { '_' } else { c }).take(80).collect::<String>())
+        }
+    }
+}
+
+/// independent statement of "the file describes a problem": plain integer arithmetic in u128
+fn record_is_wellformed(r: &Req) -> bool {
+    let ok_csc = |m: &CscMatrix<f64>| -> bool {
+        m.rowval.len() == m.nzval.len()
+            && m.colptr.len() == m.n.wrapping_add(1)
+            && m.colptr.first() == Some(&0)
+            && m.colptr.last() == Some(&m.rowval.len())
+            && m.colptr.windows(2).all(|w| w[0] <= w[1])
+            && (0..m.n).all(|j| m.rowval[m.colptr[j]..m.colptr[j + 1]].windows(2).all(|w| w[0] < w[1]))
+            && m.rowval.iter().all(|&i| i < m.m)
+    };
+    let (P, A, q, b) = (r.csc("P"), r.csc("A"), r.fs("q"), r.fs("b"));
+    let cones = common_cones::parse_cones(r.str("cones"));
+    let total: u128 = cones
+        .iter()
+        .map(|c| match c {
+            Cone::ZeroConeT(k) | Cone::NonnegativeConeT(k) | Cone::SecondOrderConeT(k) => *k as u128,
+            Cone::ExponentialConeT() | Cone::PowerConeT(_) => 3,
+            Cone::GenPowerConeT(a, d) => a.len() as u128 + *d as u128,
+            Cone::PSDTriangleConeT(k) => (*k as u128) * (*k as u128 + 1) / 2,
+        })
+        .sum();
+    let gp_ok = cones.iter().all(|c| match c {
+        Cone::GenPowerConeT(a, _) => a.iter().all(|x| *x > 0.0) && (1.0 - a.iter().fold(0.0, |s, x| s + x)).abs() < f64::EPSILON * a.len() as f64 * 0.5,
+        _ => true,
+    });
+    let used = if r.b("arg") { rec_settings(r, "a") } else if r.b("hasset") { rec_settings(r, "") } else { RecSettings { dsm: "auto".into(), mm: "clique_graph".into(), tl: f64::INFINITY, pre: true, chord: true } };
+    let strings_ok = ["auto", "qdldl", "faer"].contains(&used.dsm.as_str()) && ["none", "parent_child", "clique_graph"].contains(&used.mm.as_str());
+    ok_csc(&P) && ok_csc(&A) && P.m == P.n && P.n == q.len() && A.n == q.len() && A.m == b.len() && total == b.len() as u128 && gp_ok && strings_ok
+}
+
+fn oracle_load(r: &Req, out: &str) -> Result<(), String> {
+    // the property clause: a file that parses gives Err or a solver, never a panic / abort
+    if out.starts_with("panic") {
+        let wf = record_is_wellformed(r);
+        return Err(format!(
+            "C19-load-record: load_from_file panicked or aborted on a file that parses (record {}well-formed as a problem): {}",
+            if wf { "" } else { "not " },
+            out
+        ));
+    }
+    if out.starts_with("err:parse") {
+        return Err(format!("the record's JSON text was rejected by the parser: {}", out));
+    }
+    let wf = record_is_wellformed(r);
+    if out.starts_with("err") {
+        if wf {
+            return Err(format!("a well-formed problem file was rejected: {}", out));
+        }
+        return Ok(());
+    }
+    // a solver was built
+    if !wf {
+        return Err("load_from_file built a solver from a file that does not describe a well-formed problem".into());
+    }
+    let o = Req::parse(&format!("x {}", out)).ok_or("unparsable response")?;
+    let used = if r.b("arg") { rec_settings(r, "a") } else if r.b("hasset") { rec_settings(r, "") } else { RecSettings { dsm: "auto".into(), mm: "clique_graph".into(), tl: f64::INFINITY, pre: true, chord: true } };
+    let want_tl = if !r.b("arg") && used.tl == f64::MAX { f64::INFINITY } else { used.tl };
+    if o.f("tl").to_bits() != want_tl.to_bits() || o.str("dsm") != used.dsm || o.str("mm") != used.mm || o.b("pre") != used.pre || o.b("chord") != used.chord {
+        return Err("the loaded solver does not carry the settings it should (file settings / settings argument)".into());
+    }
+    if o.u("n") != r.fs("q").len() || o.u("m") > r.fs("b").len() {
+        return Err("loaded dimensions differ from the file's".into());
+    }
+    Ok(())
+}
+
+// ---------------------------------------------------------------- channels json.conedec / json.coneenc
+//
+// The serde representation of `SupportedConeT` (tags / payload shapes produced by the derive)
+// against the model's encoder / decoder (`ClarabelModel/JsonCones.lean`).  Float payloads
+// travel as their JSON tokens (serde_json's printer; `float_roundtrip` parser): the number
+// text layer is library code, the *structure* is what is compared.
+
+fn ftok(x: f64) -> String {
+    serde_json::to_string(&x).expect("finite float")
+}
+/// cone wire format with float payloads as JSON tokens: `p:0.4`, `g:0.3;0.7:2`
+fn fmt_cones_tok(cs: &[Cone]) -> String {
+    cs.iter()
+        .map(|c| match c {
+            Cone::ZeroConeT(k) => format!("z{}", k),
+            Cone::NonnegativeConeT(k) => format!("n{}", k),
+            Cone::SecondOrderConeT(k) => format!("q{}", k),
+            Cone::ExponentialConeT() => "e".to_string(),
+            Cone::PowerConeT(a) => format!("p:{}", ftok(*a)),
+            Cone::GenPowerConeT(a, d) => format!("g:{}:{}", a.iter().map(|x| ftok(*x)).collect::<Vec<_>>().join(";"), d),
+            Cone::PSDTriangleConeT(k) => format!("s{}", k),
+        })
+        .collect::<Vec<_>>()
+        .join(",")
+}
+fn parse_cones_tok(s: &str) -> Vec<Cone> {
+    if s.is_empty() {
+        return vec![];
+    }
+    let pf = |t: &str| -> f64 { serde_json::from_str::<f64>(t).expect("float token") };
+    s.split(',')
+        .map(|t| {
+            if t == "e" {
+                return Cone::ExponentialConeT();
+            }
+            let (h, r) = t.split_at(1);
+            match h {
+                "z" => Cone::ZeroConeT(r.parse().unwrap()),
+                "n" => Cone::NonnegativeConeT(r.parse().unwrap()),
+                "q" => Cone::SecondOrderConeT(r.parse().unwrap()),
+                "s" => Cone::PSDTriangleConeT(r.parse().unwrap()),
+                "p" => Cone::PowerConeT(pf(&r[1..])),
+                "g" => {
+                    let body = &r[1..];
+                    let (al, d) = body.rsplit_once(':').unwrap();
+                    Cone::GenPowerConeT(if al.is_empty() { vec![] } else { al.split(';').map(pf).collect() }, d.parse().unwrap())
+                }
+                _ => panic!("cone token"),
+            }
+        })
+        .collect()
+}
+
+/// implementation: the derive's `Deserialize` on the text
+fn run_conedec(r: &Req) -> String {
+    match serde_json::from_str::<Vec<Cone>>(r.str("text")) {
+        Ok(cs) => format!("cones={}", fmt_cones_tok(&cs)),
+        Err(_) => "err".to_string(),
+    }
+}
+fn oracle_conedec(r: &Req, out: &str) -> Result<(), String> {
+    // texts the implementation itself wrote must come back as the same cones, bit for bit
+    if r.has("orig") {
+        let want = common_cones::parse_cones(r.str("orig"));
+        let got: Vec<Cone> = serde_json::from_str(r.str("text")).map_err(|e| format!("the serialised cone list does not deserialise: {}", e))?;
+        if common_cones::fmt_cones(&got) != common_cones::fmt_cones(&want) {
+            return Err(format!("cone list changed across serialise/deserialise: {} vs {}", common_cones::fmt_cones(&got), r.str("orig")));
+        }
+        if out == "err" {
+            return Err("err on a text written by the serialiser".into());
+        }
+    }
+    Ok(())
+}
+/// implementation: the derive's `Serialize`
+fn run_coneenc(r: &Req) -> String {
+    let cs = parse_cones_tok(r.str("cones"));
+    format!("text={}", serde_json::to_string(&cs).expect("serialise cones"))
+}
+fn oracle_coneenc(r: &Req, out: &str) -> Result<(), String> {
+    // independent statement of the externally tagged form (hand-written `cone_value`)
+    let cs = parse_cones_tok(r.str("cones"));
+    let want = Value::Array(cs.iter().map(cone_value).collect());
+    let got: Value = serde_json::from_str(out.strip_prefix("text=").ok_or("no text")?).map_err(|e| e.to_string())?;
+    if got != want {
+        return Err(format!("serialised cones {} expected {}", got, want));
+    }
+    Ok(())
+}
+
 fn channels() -> Vec<Channel> {
     vec![
         Channel { name: "json.save", tol: Tol::Exact, run: run_save, oracle: Some(oracle_save), modelled: true,
             rust_fn: "DefaultSolver::save_to_file (un-equilibration of P,q,A,b)", lean: "Json.saveData / C19.unscale_on_save, exact_when_off" },
+        Channel { name: "json.saverec", tol: Tol::Exact, run: run_saverec, oracle: Some(oracle_saverec), modelled: true,
+            rust_fn: "DefaultSolver::save_to_file (whole record: patterns, un-equilibrated numbers, cone list, sanitised settings)", lean: "JsonLoad.saveRecord / C19.save_load_roundtrip" },
         Channel { name: "json.sanitize", tol: Tol::Exact, run: run_sanitize, oracle: Some(oracle_sanitize), modelled: true,
             rust_fn: "json::sanitize_settings / desanitize_settings", lean: "Json.sanitize, Json.desanitize / C19.settings_roundtrip" },
         Channel { name: "json.roundtrip", tol: Tol::Exact, run: run_roundtrip, oracle: Some(oracle_roundtrip), modelled: false,
             rust_fn: "save_to_file + load_from_file + solve", lean: "-" },
         Channel { name: "json.fault", tol: Tol::Exact, run: run_fault, oracle: Some(oracle_fault), modelled: false,
             rust_fn: "load_from_file on corrupted files", lean: "-" },
+        Channel { name: "json.conedec", tol: Tol::Exact, run: run_conedec, oracle: Some(oracle_conedec), modelled: true,
+            rust_fn: "Deserialize for Vec<SupportedConeT<f64>> (serde derive) on JSON text", lean: "JsonCones.decodeCones / C19.cone_decode_encode" },
+        Channel { name: "json.coneenc", tol: Tol::Exact, run: run_coneenc, oracle: Some(oracle_coneenc), modelled: true,
+            rust_fn: "Serialize for Vec<SupportedConeT<f64>> (serde derive)", lean: "JsonCones.encodeCones / C19.cone_decode_encode" },
+        Channel { name: "json.load", tol: Tol::Exact, run: run_load, oracle: Some(oracle_load), modelled: true,
+            rust_fn: "load_from_file (post-parse validation, settings override, DefaultSolver::new) on a parsed record written with an independent JSON writer",
+            lean: "JsonLoad.loadRecord / C19.load_validated_implies_new_preconditions, load_error_kinds" },
     ]
 }
 
@@ -1176,6 +1617,404 @@ fn submit_save_from_solver(s: &mut Session, p: &Prob, equil: bool) {
     s.submit(l.done());
 }
 
+// ---------------------------------------------------------------- json.load records
+
+fn load_line(p: &Prob, fs: Option<&RecSettings>, arg: Option<&RecSettings>) -> String {
+    let mut l = Line::new("json.load").csc("P", &p.P).fs("q", &p.q).csc("A", &p.A).fs("b", &p.b).s("cones", &common_cones::fmt_cones(&p.cones));
+    l = l.b("hasset", fs.is_some());
+    if let Some(f) = fs {
+        l = l.s("dsm", &f.dsm).s("mm", &f.mm).f("tl", f.tl).b("pre", f.pre).b("chord", f.chord);
+    }
+    l = l.b("arg", arg.is_some());
+    if let Some(a) = arg {
+        l = l.s("adsm", &a.dsm).s("amm", &a.mm).f("atl", a.tl).b("apre", a.pre).b("achord", a.chord);
+    }
+    l.done()
+}
+
+fn gen_rec_settings(rng: &mut Rng) -> RecSettings {
+    RecSettings {
+        dsm: rng.choose(&["auto", "qdldl", "faer", "qdldl"]).to_string(),
+        mm: rng.choose(&["none", "parent_child", "clique_graph"]).to_string(),
+        tl: *rng.choose(&[f64::INFINITY, f64::MAX, 1e6, 0.0, 3600.5, 1e300, -1.0]),
+        pre: rng.bool(0.6),
+        chord: rng.bool(0.5),
+    }
+}
+
+const HUGE: [usize; 6] = [1 << 24, 1 << 40, 1 << 62, 1 << 63, usize::MAX - 1, usize::MAX];
+
+fn inject_other(rng: &mut Rng, p: &mut Prob, fs: &mut RecSettings, kind: usize) -> Option<&'static str> {
+    match kind {
+        9 => { p.P.m += 1; Some("P-not-square") }
+        10 => { if rng.bool(0.5) { p.q.push(0.5); } else { p.q.pop()?; } Some("q-length") }
+        11 => { if rng.bool(0.5) { p.b.push(0.5); } else { p.b.pop()?; } Some("b-length") }
+        12 => { if rng.bool(0.5) { p.A.m += 1; } else { p.A.m = p.A.m.checked_sub(1)?; } Some("A-rows") }
+        14 => {
+            // a cone of another size
+            let i = rng.below(p.cones.len().max(1));
+            match p.cones.get_mut(i)? {
+                Cone::ZeroConeT(k) | Cone::NonnegativeConeT(k) | Cone::SecondOrderConeT(k) => *k += 1,
+                Cone::PSDTriangleConeT(k) => *k += 1,
+                Cone::GenPowerConeT(_, d) => *d += 1,
+                _ => return None,
+            }
+            Some("cone-size")
+        }
+        15 => {
+            let i = rng.below(p.cones.len() + 1);
+            let c = match rng.below(4) { 0 => Cone::ExponentialConeT(), 1 => Cone::PowerConeT(0.5), 2 => Cone::ZeroConeT(1 + rng.below(3)), _ => Cone::SecondOrderConeT(2) };
+            p.cones.insert(i, c);
+            Some("cone-extra")
+        }
+        16 => {
+            // cone sizes whose sum does not fit a usize (checked_add)
+            let h = *rng.choose(&HUGE[2..]);
+            p.cones.push(match rng.below(3) { 0 => Cone::ZeroConeT(h), 1 => Cone::NonnegativeConeT(h), _ => Cone::SecondOrderConeT(h) });
+            if rng.bool(0.6) { p.cones.push(Cone::NonnegativeConeT(*rng.choose(&HUGE[2..]))); }
+            Some("cone-sum-overflows")
+        }
+        17 => {
+            // generalized power cone exponents
+            let i = (0..p.cones.len()).find(|&i| matches!(p.cones[i], Cone::GenPowerConeT(..)));
+            let bad: Vec<f64> = match rng.below(6) {
+                0 => vec![0.5, 0.5 + 1e-9],
+                1 => vec![-0.25, 1.25],
+                2 => vec![0.0, 1.0],
+                3 => vec![],
+                4 => vec![0.5, 0.5 + 2.0 * f64::EPSILON],
+                _ => vec![0.3, 0.3, 0.3],
+            };
+            match i {
+                Some(i) => { if let Cone::GenPowerConeT(a, d) = &mut p.cones[i] { let total = a.len() + *d; if bad.len() > total { return None; } *d = total - bad.len(); *a = bad; } }
+                None => return None,
+            }
+            Some("genpow-exponents")
+        }
+        18 => { fs.dsm = rng.choose(&["foo", "QDLDL", "cholmod", "mkl", "Auto", "faer2", "x"]).to_string(); Some("direct_solve_method") }
+        19 => { fs.mm = rng.choose(&["foo", "None", "cliquegraph", "parent-child", "x"]).to_string(); Some("merge_method") }
+        _ => None,
+    }
+}
+
+/// one defect of a parsed record; returns its name, `None` when it does not apply
+fn inject(rng: &mut Rng, p: &mut Prob, fs: &mut RecSettings, kind: usize) -> Option<&'static str> {
+    // matrix defects apply to P or A
+    let on_a = rng.bool(0.5);
+    if kind >= 9 && kind != 13 && kind != 20 {
+        return inject_other(rng, p, fs, kind);
+    }
+    let mat: &mut CscMatrix<f64> = if on_a { &mut p.A } else { &mut p.P };
+    match kind {
+        0 => { mat.rowval.push(0); Some("rowval-longer-than-nzval") }
+        1 => { mat.nzval.push(1.0); Some("nzval-longer-than-rowval") }
+        2 => { mat.colptr.pop()?; Some("colptr-too-short") }
+        3 => { let l = *mat.colptr.last()?; mat.colptr.push(l); Some("colptr-too-long") }
+        4 => { *mat.colptr.last_mut()? += 1; Some("colptr-last-not-nnz") }
+        5 => {
+            // first column pointer not zero (lengths stay consistent)
+            if mat.colptr.len() < 2 || mat.colptr[1] == 0 { return None; }
+            mat.colptr[0] = 1;
+            Some("colptr-first-not-zero")
+        }
+        6 => {
+            // non-monotone column pointers
+            let n = mat.colptr.len();
+            if n < 3 { return None; }
+            let j = 1 + rng.below(n - 2);
+            mat.colptr[j] = mat.colptr[n - 1] + 1 + rng.below(3);
+            Some("colptr-not-monotone")
+        }
+        7 => {
+            // two entries of a column out of order / repeated
+            let cols: Vec<usize> = (0..mat.n.min(mat.colptr.len().saturating_sub(1))).filter(|&j| mat.colptr[j + 1] >= mat.colptr[j] + 2).collect();
+            let j = *cols.get(rng.below(cols.len().max(1)))?;
+            let k = mat.colptr[j];
+            if k + 1 >= mat.rowval.len() { return None; }
+            if rng.bool(0.5) { mat.rowval.swap(k, k + 1); Some("rows-out-of-order") } else { mat.rowval[k + 1] = mat.rowval[k]; Some("row-repeated") }
+        }
+        8 => {
+            if mat.rowval.is_empty() { return None; }
+            let k = rng.below(mat.rowval.len());
+            // keep the column sorted: raise the last entry of a column
+            let j = (0..mat.colptr.len().saturating_sub(1)).find(|&j| mat.colptr[j] <= k && k < mat.colptr[j + 1])?;
+            let last = mat.colptr[j + 1] - 1;
+            if last >= mat.rowval.len() { return None; }
+            mat.rowval[last] = if rng.bool(0.5) { mat.m } else { *rng.choose(&HUGE) };
+            Some("row-index-out-of-range")
+        }
+        13 => { mat.n += 1; Some("matrix-n-vs-colptr") }
+        20 => {
+            // huge declared dimensions
+            match rng.below(5) {
+                0 => mat.n = *rng.choose(&HUGE),
+                1 => mat.m = *rng.choose(&HUGE),
+                2 => { mat.m = usize::MAX; mat.n = usize::MAX; }
+                3 => { let h = *rng.choose(&HUGE); *mat.colptr.last_mut()? = h; }
+                _ => { mat.m = *rng.choose(&HUGE[2..]); }
+            }
+            Some("huge-declared-size")
+        }
+        _ => None,
+    }
+}
+
+/// a cone whose `nvars()` wraps to `w` in `usize` arithmetic
+fn wrapping_cone(rng: &mut Rng) -> (Cone, usize) {
+    match rng.below(3) {
+        0 => {
+            // α.len() + dim2 = 2^64 + t
+            let a = rng.uniform(0.2, 0.8);
+            let t = rng.below(2);
+            (Cone::GenPowerConeT(vec![a, 1.0 - a], usize::MAX - 1 + t), t)
+        }
+        1 => {
+            let t = rng.below(2);
+            (Cone::GenPowerConeT(vec![0.25, 0.25, 0.5], usize::MAX - 2 + t), t)
+        }
+        _ => {
+            // k = 2^64 - j: (k*(k+1)) >> 1 wraps to j(j-1)/2
+            let j = 1 + rng.below(4);
+            (Cone::PSDTriangleConeT(usize::MAX - j + 1), j * (j - 1) / 2)
+        }
+    }
+}
+
+/// the three files of finding fb4bc53 (cone sizes that wrap in `usize` arithmetic and then
+/// match `|b|`): they must give `Err`
+fn load_corpus() -> Vec<String> {
+    let one = |v: f64| CscMatrix { m: 1, n: 1, colptr: vec![0, 1], rowval: vec![0], nzval: vec![v] };
+    let mk = |cones: Vec<Cone>| Prob { P: one(1.0), q: vec![1.0], A: one(1.0), b: vec![1.0], cones };
+    vec![
+        load_line(&mk(vec![Cone::GenPowerConeT(vec![0.5, 0.5], 18446744073709551615)]), None, None),
+        load_line(&mk(vec![Cone::PSDTriangleConeT(18446744073709551614)]), None, None),
+        load_line(&mk(vec![Cone::NonnegativeConeT(1), Cone::PSDTriangleConeT(18446744073709551615)]), None, None),
+    ]
+}
+
+fn generate_load(s: &mut Session) {
+    for line in load_corpus() {
+        let out = s.submit(line);
+        s.count(&format!("load:corpus-fb4bc53:{}", out.split('=').next().unwrap_or("")));
+    }
+    // ---- well-formed records (with / without a settings object, with / without an argument)
+    for k in 0..s.budget(60, 1500) {
+        let mut rng = s.rng.fork();
+        let mut p = gen_problem(&mut rng, true, 1.0);
+        if k % 7 == 0 {
+            p = all_cones_problem(&mut rng);
+        }
+        if rng.bool(0.2) {
+            // an infinite / capped bound (finite in the file): presolve may drop the row
+            if let Some(i) = (0..p.cones.len()).find(|&i| matches!(p.cones[i], Cone::NonnegativeConeT(k) if k > 0)) {
+                let at: usize = p.cones[..i].iter().map(nvars).sum();
+                p.b[at] = *rng.choose(&[1e20, 1e25, f64::MAX, 9.999999999999999e19]);
+            }
+        }
+        let fs = gen_rec_settings(&mut rng);
+        let mut arg = gen_rec_settings(&mut rng);
+        // the argument is used verbatim: an `f64::MAX` limit in it is *not* de-sanitised
+        if rng.bool(0.5) {
+            arg.tl = f64::MAX;
+        }
+        let line = match k % 4 {
+            0 => load_line(&p, None, None),
+            1 | 2 => load_line(&p, Some(&fs), None),
+            _ => load_line(&p, if rng.bool(0.8) { Some(&fs) } else { None }, Some(&arg)),
+        };
+        let out = s.submit(line);
+        s.count(&format!("load:well-formed:{}", out.split(|c| c == '=' || c == ':').next().unwrap_or("")));
+    }
+    // ---- one defect at a time, every kind; then combinations
+    let nkinds = 21;
+    for round in 0..s.budget(6, 120) {
+        for kind in 0..nkinds {
+            let mut rng = s.rng.fork();
+            let mut p = if round % 3 == 0 { all_cones_problem(&mut rng) } else { gen_problem(&mut rng, true, 1.0) };
+            let mut fs = gen_rec_settings(&mut rng);
+            let name = match inject(&mut rng, &mut p, &mut fs, kind) {
+                Some(n) => n,
+                None => continue,
+            };
+            // a valid settings argument rescues bad file settings, an invalid one is reported
+            let arg = if rng.bool(0.2) { Some(gen_rec_settings(&mut rng)) } else { None };
+            let out = s.submit(load_line(&p, Some(&fs), arg.as_ref()));
+            s.count(&format!("load:defect:{}:{}", name, out.split('=').next().unwrap_or("").chars().take(40).collect::<String>()));
+        }
+    }
+    for _ in 0..s.budget(120, 3000) {
+        let mut rng = s.rng.fork();
+        let mut p = gen_problem(&mut rng, true, 1.0);
+        let mut fs = gen_rec_settings(&mut rng);
+        let mut arg = if rng.bool(0.3) { Some(gen_rec_settings(&mut rng)) } else { None };
+        let k = 2 + rng.below(3);
+        let mut names = vec![];
+        for _ in 0..k {
+            let kind = rng.below(nkinds);
+            if let Some(n) = inject(&mut rng, &mut p, &mut fs, kind) {
+                names.push(n);
+            }
+        }
+        if let Some(a) = arg.as_mut() {
+            if rng.bool(0.3) {
+                a.dsm = "bogus".into();
+            }
+            if rng.bool(0.2) {
+                a.mm = "bogus".into();
+            }
+        }
+        let out = s.submit(load_line(&p, Some(&fs), arg.as_ref()));
+        s.count(&format!("load:combination:{}", out.split('=').next().unwrap_or("").chars().take(40).collect::<String>()));
+    }
+    // ---- cone sizes that wrap in usize arithmetic (GenPowerConeT: α.len()+dim2,
+    //      PSDTriangleConeT: k(k+1)/2) with everything else consistent with the wrapped size
+    for _ in 0..s.budget(16, 200) {
+        let mut rng = s.rng.fork();
+        let mut p = gen_problem(&mut rng, true, 1.0);
+        let (c, w) = wrapping_cone(&mut rng);
+        let at = rng.below(p.cones.len() + 1);
+        let row: usize = p.cones[..at].iter().map(nvars).sum();
+        p.cones.insert(at, c);
+        // insert `w` rows at `row`
+        for _ in 0..w {
+            p.b.insert(row, 1.0);
+        }
+        for r in p.A.rowval.iter_mut() {
+            if *r >= row {
+                *r += w;
+            }
+        }
+        p.A.m += w;
+        let fs = gen_rec_settings(&mut rng);
+        let out = s.submit(load_line(&p, Some(&fs), None));
+        s.count(&format!("load:wrapped-cone-size:{}", out.split(|c| c == '=' || c == ':').next().unwrap_or("")));
+    }
+}
+
+// ---------------------------------------------------------------- cone (de)serialisation cases
+
+fn gen_cone_any(rng: &mut Rng) -> Cone {
+    let dim = |rng: &mut Rng| -> usize {
+        match rng.below(8) {
+            0 => 0,
+            1 => usize::MAX,
+            2 => *rng.choose(&HUGE),
+            3 => rng.next_u64() as usize,
+            _ => rng.below(50),
+        }
+    };
+    let fl = |rng: &mut Rng| -> f64 {
+        match rng.below(6) {
+            0 => extreme(rng),
+            1 => rng.logmag(-300.0, 300.0),
+            2 => f64::from_bits(rng.next_u64() & !(0x7ff << 52) | ((rng.below(2046) as u64 + 1) << 52)),
+            _ => rng.uniform(0.0, 1.0),
+        }
+    };
+    match rng.below(7) {
+        0 => Cone::ZeroConeT(dim(rng)),
+        1 => Cone::NonnegativeConeT(dim(rng)),
+        2 => Cone::SecondOrderConeT(dim(rng)),
+        3 => Cone::ExponentialConeT(),
+        4 => Cone::PowerConeT(fl(rng)),
+        5 => {
+            let k = rng.below(5);
+            Cone::GenPowerConeT((0..k).map(|_| fl(rng)).collect(), dim(rng))
+        }
+        _ => Cone::PSDTriangleConeT(dim(rng)),
+    }
+}
+
+/// structural corruptions of a serialised cone list (token level)
+fn corrupt_cone_text(rng: &mut Rng, text: &str) -> Option<String> {
+    let mut v: Value = serde_json::from_str(text).ok()?;
+    let a = v.as_array_mut()?;
+    if a.is_empty() {
+        return Some(match rng.below(3) { 0 => "{}".into(), 1 => "3".into(), _ => "[3]".into() });
+    }
+    let i = rng.below(a.len());
+    let (tag, payload) = { let o = a[i].as_object()?; let (k, p) = o.iter().next()?; (k.clone(), p.clone()) };
+    let new: Value = match rng.below(14) {
+        0 => json!({ tag.trim_end_matches('T'): payload }),
+        1 => json!({ "FooConeT": payload }),
+        2 => json!({ tag.to_lowercase(): payload }),
+        3 => json!({}),
+        4 => json!({ tag.clone(): payload, "ZeroConeT": 1 }),
+        5 => json!(tag),
+        6 => json!({ tag: [payload] }),
+        7 => json!({ tag: null }),
+        8 => json!({ tag: "3" }),
+        // (an integer token in a float position is accepted by serde as `-1.0`: outside the
+        // decoder model's domain, see ClarabelModel/JsonCones.lean)
+        9 => if tag == "PowerConeT" { return None } else { json!({ tag: -1 }) },
+        10 => json!({ tag: 2.5 }),
+        11 => match payload { Value::Array(mut p) => { p.push(json!(1)); json!({ tag: p }) } _ => json!({ tag: true }) },
+        12 => match payload { Value::Array(mut p) => { p.pop()?; json!({ tag: p }) } _ => json!({ tag: {} }) },
+        _ => json!([tag, payload]),
+    };
+    a[i] = new;
+    Some(v.to_string())
+}
+
+/// the `"cones":[…]` array of a file written by `save_to_file`, as text (raw slice of the file)
+fn saved_cones_text(file: &str) -> Option<String> {
+    let start = file.find("\"cones\":")? + 8;
+    let mut depth = 0i32;
+    for (i, ch) in file[start..].char_indices() {
+        match ch {
+            '[' => depth += 1,
+            ']' => {
+                depth -= 1;
+                if depth == 0 {
+                    return Some(file[start..start + i + 1].to_string());
+                }
+            }
+            _ => {}
+        }
+    }
+    None
+}
+
+fn generate_cones(s: &mut Session) {
+    // the cone arrays of real saved files (the solver's collapsed cone list) → model decoder
+    for _ in 0..s.budget(30, 600) {
+        let mut rng = s.rng.fork();
+        let p = if rng.bool(0.3) { all_cones_problem(&mut rng) } else { gen_problem(&mut rng, true, 1.0) };
+        let solver = build(&p, settings_of(0, rng.bool(0.5), f64::INFINITY));
+        let file = save_text(&solver).expect("save");
+        match saved_cones_text(&file) {
+            Some(text) => {
+                s.submit(Line::new("json.conedec").s("text", &text).s("orig", &common_cones::fmt_cones(&solver.data.cones)).done());
+                s.count("conedec:saved-file");
+            }
+            None => s.fail("json.conedec", String::new(), file.chars().take(300).collect(), "no cones array in a saved file".into()),
+        }
+    }
+    // every variant once, then random lists (empty list, huge sizes, extreme exponents)
+    let fixed = vec![
+        vec![],
+        vec![Cone::ZeroConeT(1), Cone::NonnegativeConeT(2), Cone::SecondOrderConeT(3), Cone::ExponentialConeT(), Cone::PowerConeT(0.4), Cone::GenPowerConeT(vec![0.3, 0.7], 1), Cone::PSDTriangleConeT(2)],
+        vec![Cone::GenPowerConeT(vec![], 0), Cone::GenPowerConeT(vec![1.0], usize::MAX), Cone::PSDTriangleConeT(usize::MAX), Cone::ZeroConeT(0)],
+    ];
+    let n = s.budget(150, 4000);
+    for k in 0..n {
+        let mut rng = s.rng.fork();
+        let cones: Vec<Cone> = if k < fixed.len() { fixed[k].clone() } else { (0..rng.below(6)).map(|_| gen_cone_any(&mut rng)).collect() };
+        // the implementation's own JSON for the list → the model's decoder
+        let text = serde_json::to_string(&cones).expect("serialise");
+        s.submit(Line::new("json.conedec").s("text", &text).s("orig", &common_cones::fmt_cones(&cones)).done());
+        // the model's encoder against the implementation's
+        s.submit(Line::new("json.coneenc").s("cones", &fmt_cones_tok(&cones)).done());
+        // a corrupted text: both sides must agree on accept / reject (and on the result)
+        if let Some(bad) = corrupt_cone_text(&mut rng, &text) {
+            if !bad.contains(' ') && !bad.contains('=') {
+                let out = s.submit(Line::new("json.conedec").s("text", &bad).done());
+                s.count(&format!("conedec:corrupted:{}", if out == "err" { "err" } else { "accepted" }));
+            }
+        }
+    }
+}
+
 fn generate(s: &mut Session) {
     // ---- json.sanitize: the special values and random ones
     let specials = [f64::INFINITY, f64::MAX, f64::NEG_INFINITY, -f64::MAX, 0.0, -0.0, 1.0, 1e308, f64::NAN, f64::MIN_POSITIVE,
@@ -1232,6 +2071,31 @@ fn generate(s: &mut Session) {
         let c = if c1 { 1.0 } else { rng.uniform(1e-4, 1e4) };
         s.count(&format!("save:synthetic:d{}e{}c{}", if d1 { "=1" } else { "!=1" }, if e1 { "=1" } else { "!=1" }, if c1 { "=1" } else { "!=1" }));
         s.submit(Line::new("json.save").csc("P", &P).fs("q", &q).csc("A", &A).fs("b", &b).fs("dinv", &dinv).fs("einv", &einv).f("c", c).done());
+    }
+    // ---- json.saverec: the whole record for arbitrary internal states, all cone variants
+    for _ in 0..s.budget(80, 3000) {
+        let mut rng = s.rng.fork();
+        let p = if rng.bool(0.25) { all_cones_problem(&mut rng) } else { gen_problem(&mut rng, true, 1.0) };
+        let tP = triu_of(&p.P);
+        let (n, m) = (p.q.len(), p.b.len());
+        let ident = rng.bool(0.3);
+        let ext = rng.bool(0.3);
+        let mut val = |rng: &mut Rng| if ext { extreme(rng) } else { rng.logmag(-6.0, 6.0) };
+        let P = CscMatrix { nzval: (0..tP.nzval.len()).map(|_| val(&mut rng)).collect(), ..tP.clone() };
+        let A = CscMatrix { nzval: (0..p.A.nzval.len()).map(|_| val(&mut rng)).collect(), ..p.A.clone() };
+        let q: Vec<f64> = (0..n).map(|_| val(&mut rng)).collect();
+        let b: Vec<f64> = (0..m).map(|_| val(&mut rng)).collect();
+        let dinv: Vec<f64> = (0..n).map(|_| if ident { 1.0 } else { rng.uniform(1e-4, 1e4) }).collect();
+        let einv: Vec<f64> = (0..m).map(|_| if ident { 1.0 } else { rng.uniform(1e-4, 1e4) }).collect();
+        let c = if ident { 1.0 } else { rng.uniform(1e-4, 1e4) };
+        // the cone list of a solver is arbitrary here (also non-collapsed, huge sizes): save copies it
+        let cones: Vec<Cone> = if rng.bool(0.5) { p.cones.clone() } else { (0..rng.below(5)).map(|_| gen_cone_any(&mut rng)).collect() };
+        let fs = gen_rec_settings(&mut rng);
+        let tl = *rng.choose(&[f64::INFINITY, f64::MAX, 1e6, 0.0, 3600.5, -1.0, f64::NEG_INFINITY, f64::NAN]);
+        s.submit(
+            Line::new("json.saverec").csc("P", &P).fs("q", &q).csc("A", &A).fs("b", &b).fs("dinv", &dinv).fs("einv", &einv).f("c", c)
+                .s("cones", &common_cones::fmt_cones(&cones)).f("tl", tl).s("dsm", &fs.dsm).s("mm", &fs.mm).b("pre", fs.pre).b("chord", fs.chord).done(),
+        );
     }
     // ---- json.roundtrip
     for _ in 0..s.budget(160, 6000) {
@@ -1293,6 +2157,10 @@ fn generate(s: &mut Session) {
         s.submit(l.done());
         s.count("roundtrip:extreme-values");
     }
+    // ---- json.load: parsed records, well-formed and ill-formed
+    generate_load(s);
+    // ---- json.conedec / json.coneenc: serde representation of the cone list
+    generate_cones(s);
     // ---- json.fault
     let nbase = s.budget(3, 12);
     for bi in 0..nbase {
@@ -1352,5 +2220,10 @@ fn generate(s: &mut Session) {
 }
 
 fn main() {
-    Session::from_args("C19", channels()).run(generate)
+    let s = Session::from_args("C19", channels());
+    if std::env::var("C19_DEBUG").is_ok() {
+        // show panics of the harness itself (the session silences them)
+        std::panic::set_hook(Box::new(|info| eprintln!("{}", info)));
+    }
+    s.run(generate)
 }
